@@ -39,6 +39,10 @@ pub trait Model: Sync {
     /// apply to the real object and the reference, compare everything the property observes
     fn apply(&self, s: &mut Self::State, op: &Self::Op) -> Result<(), (String, String)>;
     fn canon(&self, s: &Self::State, c: &mut Canon);
+    /// cheap copy of a state if the real object supports it (otherwise the history is replayed)
+    fn clone_state(&self, _s: &Self::State) -> Option<Self::State> {
+        None
+    }
     /// coarse outcome signature of the last transition (for the diversity histogram)
     fn outcome(&self, _s: &Self::State, _op: &Self::Op) -> String {
         String::new()
@@ -152,15 +156,23 @@ pub fn explore<M: Model>(m: &M, depth: usize, ctx: &Ctx) -> Acc {
                     acc: Acc::new(),
                 };
                 for hist in chunk {
-                    let ops = match crate::fw::catch(|| rebuild(m, hist).map(|s| m.enabled(&s))) {
-                        Ok(Some(ops)) => ops,
+                    let (base, ops) = match crate::fw::catch(|| {
+                        rebuild(m, hist).map(|s| {
+                            let ops = m.enabled(&s);
+                            (s, ops)
+                        })
+                    }) {
+                        Ok(Some(x)) => x,
                         _ => continue,
                     };
                     for op in ops {
                         let mut h2 = hist.clone();
                         h2.push(op.clone());
                         let r = crate::fw::catch(|| {
-                            let mut s = rebuild(m, hist).expect("prefix replays");
+                            let mut s = match m.clone_state(&base) {
+                                Some(s) => s,
+                                None => rebuild(m, hist).expect("prefix replays"),
+                            };
                             let r = m.apply(&mut s, &op);
                             match r {
                                 Ok(()) => {
